@@ -902,6 +902,15 @@ func (s *Summ) binop(x *ssa.BinOp, st *state) *Val {
 				}
 				return negate(r)
 			}
+			// a sentinel error variable (errors.New in init, never reassigned) is never nil
+			for _, pr := range [][2]*Val{{l, r}, {r, l}} {
+				if pr[0].K == KConst && pr[0].S == "nil" && pr[1].K == KSym && strings.HasPrefix(pr[1].S, "global:") && s.P.isSentinelGlobal(strings.TrimPrefix(pr[1].S, "global:")) {
+					if x.Op == token.NEQ {
+						return vConst("true")
+					}
+					return vConst("false")
+				}
+			}
 			if l.K == KConst && r.K == KConst {
 				if (l.S == r.S) == (x.Op == token.EQL) {
 					return vConst("true")
